@@ -123,6 +123,14 @@ func (nn *nonNil) Value(v ssa.Value, b *ssa.BasicBlock, depth int) bool {
 			}
 		}
 	case *ssa.Phi:
+		// coinductive: a phi currently being judged is assumed non-nil on its
+		// own back edges (loop-carried "best so far" variables)
+		pk := "phi:" + x.Parent().String() + ":" + x.Name()
+		if st, ok := nn.memo[pk]; ok {
+			return st >= 0
+		}
+		nn.memo[pk] = 0
+		defer func() { delete(nn.memo, pk) }()
 		all := true
 		for k, ed := range x.Edges {
 			pred := x.Block().Preds[k]
@@ -144,6 +152,10 @@ func (nn *nonNil) Value(v ssa.Value, b *ssa.BasicBlock, depth int) bool {
 	case *ssa.UnOp:
 		if x.Op == token.MUL {
 			if knownNonNil(v, b) {
+				return true
+			}
+			// element of a slice all of whose slots hold checked constructor results
+			if ia, ok := x.X.(*ssa.IndexAddr); ok && nn.elemsNonNil(ia.X, map[ssa.Value]bool{}, 0) {
 				return true
 			}
 			// field of a value+Err pair, under XErr == nil
@@ -397,7 +409,14 @@ func (nn *nonNil) producerSound(fn *ssa.Function, idx int) bool {
 			continue
 		}
 		// forwarding: return g(...) / return x, err where (x, err) are results of one sound producer
-		if ex, isEx := v.(*ssa.Extract); isEx {
+		fv := v
+		if mi, ok := fv.(*ssa.MakeInterface); ok {
+			fv = mi.X
+		}
+		if ct, ok := fv.(*ssa.ChangeType); ok {
+			fv = ct.X
+		}
+		if ex, isEx := fv.(*ssa.Extract); isEx {
 			if call, isCall := ex.Tuple.(*ssa.Call); isCall {
 				if eex, isE := e.(*ssa.Extract); isE && eex.Tuple == ex.Tuple {
 					sound := true
@@ -438,4 +457,169 @@ func closureCreationBlock(fn, outer *ssa.Function) *ssa.BasicBlock {
 		}
 	})
 	return blk
+}
+
+// elemsNonNil: every element of slice value s is non-nil: s is (a sub-slice
+// of) the result of a function that fills every slot with a checked
+// constructor result before returning it with a nil error.
+func (nn *nonNil) elemsNonNil(s ssa.Value, seen map[ssa.Value]bool, depth int) bool {
+	if seen[s] || depth > 8 {
+		return depth <= 8
+	}
+	seen[s] = true
+	switch x := unwrapLoad(s).(type) {
+	case *ssa.Slice:
+		return nn.elemsNonNil(x.X, seen, depth+1)
+	case *ssa.Phi:
+		for _, e := range x.Edges {
+			if !nn.elemsNonNil(e, seen, depth+1) {
+				return false
+			}
+		}
+		return true
+	case *ssa.Parameter:
+		fn := x.Parent()
+		idx := -1
+		for i, p := range fn.Params {
+			if p == x {
+				idx = i
+			}
+		}
+		callers := nn.P.Callers(fn)
+		if len(callers) == 0 {
+			return false
+		}
+		for _, e := range callers {
+			if e.Site == nil || !nn.P.IsServitorFunc(e.Caller.Func) {
+				return false
+			}
+			args := e.Site.Common().Args
+			if idx >= len(args) || !nn.elemsNonNil(args[idx], seen, depth+1) {
+				return false
+			}
+		}
+		return true
+	case *ssa.Extract:
+		call, ok := x.Tuple.(*ssa.Call)
+		if !ok {
+			return false
+		}
+		sc := call.Call.StaticCallee()
+		if sc == nil || !nn.P.IsServitorFunc(sc) {
+			return false
+		}
+		return nn.fillsAllSlots(sc, x.Index)
+	}
+	return false
+}
+
+// fillsAllSlots: fn returns (at index idx, with a nil error) a slice made with
+// len(list) elements, and a range loop over the same list stores a provably
+// non-nil value into slot [range index] on every path that continues the loop.
+func (nn *nonNil) fillsAllSlots(fn *ssa.Function, idx int) bool {
+	key := "slots:" + fn.String()
+	if v, ok := nn.memo[key]; ok {
+		return v == 1
+	}
+	nn.memo[key] = -1
+	var mk *ssa.MakeSlice
+	for _, b := range fn.Blocks {
+		ret, ok := b.Instrs[len(b.Instrs)-1].(*ssa.Return)
+		if !ok {
+			continue
+		}
+		e := ret.Results[len(ret.Results)-1]
+		if provablyNonNilErr(e, b, 0) {
+			continue
+		}
+		m, ok := unwrapLoad(ret.Results[idx]).(*ssa.MakeSlice)
+		if !ok {
+			return false
+		}
+		if mk != nil && mk != m {
+			return false
+		}
+		mk = m
+	}
+	if mk == nil {
+		return false
+	}
+	// size = len(list)
+	lc, ok := mk.Len.(*ssa.Call)
+	if !ok {
+		return false
+	}
+	bi, ok := lc.Call.Value.(*ssa.Builtin)
+	if !ok || bi.Name() != "len" {
+		return false
+	}
+	list := lc.Call.Args[0]
+	// stores into mk[rangeindex] of non-nil values; the range is over `list`
+	var header *ssa.BasicBlock
+	stores := 0
+	okAll := true
+	for _, r := range refs(mk) {
+		ia, ok := r.(*ssa.IndexAddr)
+		if !ok {
+			continue
+		}
+		bo, ok := ia.Index.(*ssa.BinOp)
+		if !ok {
+			continue
+		}
+		ph, ok := bo.X.(*ssa.Phi)
+		if !ok || ph.Comment != "rangeindex" {
+			okAll = false
+			continue
+		}
+		header = ph.Block()
+		for _, rr := range refs(ia) {
+			if st, ok := rr.(*ssa.Store); ok {
+				stores++
+				if !nn.Value(st.Val, st.Block(), 1) {
+					okAll = false
+				}
+			}
+		}
+		// the loop bound is len(list)
+		bound := false
+		for _, rr := range refs(bo) {
+			if cmp, ok := rr.(*ssa.BinOp); ok && cmp.Op == token.LSS {
+				if l2, ok := cmp.Y.(*ssa.Call); ok {
+					if b2, ok := l2.Call.Value.(*ssa.Builtin); ok && b2.Name() == "len" && (l2.Call.Args[0] == list || path(l2.Call.Args[0]) == path(list)) {
+						bound = true
+					}
+				}
+			}
+		}
+		if !bound {
+			okAll = false
+		}
+	}
+	if !okAll || stores == 0 || header == nil {
+		return false
+	}
+	// every way back to the loop header from the loop body passes a store into the slice
+	body := header.Succs[0]
+	paths, complete := enumeratePathsFrom(fn, body, header, 500)
+	if !complete || len(paths) == 0 {
+		return false
+	}
+	for _, pf := range paths {
+		has := false
+		for _, b := range pf.blocks {
+			for _, in := range b.Instrs {
+				if st, ok := in.(*ssa.Store); ok {
+					if ia, ok := st.Addr.(*ssa.IndexAddr); ok && ia.X == ssa.Value(mk) {
+						has = true
+					}
+				}
+			}
+		}
+		if !has {
+			return false
+		}
+	}
+	nn.memo[key] = 1
+	return true
 }
